@@ -41,6 +41,9 @@ def base_warm():
     import breezy.transform  # noqa: F401
     import breezy.uncommit  # noqa: F401
 
+    from . import storesim
+
+    storesim.install_pins()  # autopack ties / index objects ordered by name, not by address
     return True
 
 
